@@ -44,6 +44,13 @@ def run(chk, repo):
     chk.doc("R09.5", "absent key => Else")
     chk.doc("R09.6", "fixed-point symmetry")
     chk.doc("R09.7", "stack slots of computed values and Dict areas")
+    chk.doc("R09.8", "a map's variable list is per map")
+    per_instance_rule(chk, repo, "R09.8", ["ebpfcat.hashmap.HashMap",
+                                           "ebpfcat.hashmap.TheDict",
+                                           "ebpfcat.hashmap.Dict"],
+                      "the variables declared in one map are bound to the "
+                      "file descriptor - and written with the defaults - of "
+                      "every other map as well")
     cells(chk, repo)
     defaults(chk, repo)
     structures(chk, repo)
@@ -273,7 +280,9 @@ def structures(chk, repo):
             o = Obj(None, {"_made_by": tag})
             made.append(o)
             return o
-        return ("hook", make)
+        # (the structure classes: callable, and they know their size)
+        return Obj(None, {"__call__": ("hook", make), "stack": 16,
+                          "_made_by": "class " + tag})
     ht = Obj(None, {"Key": mk("Key"), "Value": mk("Value"),
                     "key_offset": koff, "value_offset": voff})
     me = Obj(tdc, {})
